@@ -858,6 +858,19 @@ def _same_rows(got, expect, superset=False):
     return True
 
 
+def _walk(node, segs, binding):
+    """(binding, node reached) for every way of matching the pattern segments against a plain model tree"""
+    if not segs:
+        yield dict(binding), node
+    elif isinstance(node, dict):
+        seg = segs[0]
+        if seg.startswith('%'):
+            for k, v in node.items():
+                yield from _walk(v, segs[1:], dict(binding, **{seg[1:]: k}))
+        elif seg in node:
+            yield from _walk(node[seg], segs[1:], binding)
+
+
 def check_table(case):
     from pyg_base import table_to_tree, tree_to_table, dictable, Dict, dictattr
     out = Out()
@@ -922,6 +935,33 @@ def check_table(case):
                                  % (pattern, pattern, show(plain(again)), show(expect2), label), fn='table_to_tree.tree_to_table', base=bname.split('-')[0])
             except Exception as e:
                 out.viol('raised', 'tree_to_table(%s, %r) [or rebuilding from its rows] raised %s: %s' % (label, pattern, type(e).__name__, e), op='tree_to_table', exc=type(e).__name__)
+            # ---- leaf=True on the pattern cut short: the closing wildcard takes WHATEVER hangs there, a whole branch included
+            if si == 0:
+                for j in range(1, len(segs)):
+                    if not any(x.startswith('%') for x in segs[:j]):
+                        continue
+                    cut = '/'.join(segs[:j] + ['%rest'])
+                    want = []
+                    for b, node in _walk(expect, segs[:j], {}):
+                        want.append(dict(b, rest=node))
+                    try:
+                        got = tree_to_table(tree, cut, leaf=True)
+                        out.call()
+                        ok = isinstance(got, list) and len(got) == len(want)
+                        if ok:
+                            rest_ = list(want)
+                            for g in got:
+                                hit = [i for i, w in enumerate(rest_) if set(g) == set(w) and all((plain(g[k]) == w[k]) for k in w)]
+                                if not hit:
+                                    ok = False
+                                    break
+                                del rest_[hit[0]]
+                        if not ok:
+                            out.viol('table-roundtrip-differs', 'tree_to_table(tree, %r, leaf=True) = %s, expected one row per match of the prefix, %%rest holding whatever hangs there: %s; tree = %s'
+                                     % (cut, show([{k: plain(v) for k, v in g.items()} for g in got] if isinstance(got, list) else got, 400), show(want, 400), show(expect, 300)),
+                                     fn='tree_to_table-leaf', base=bname.split('-')[0])
+                    except Exception as e:
+                        out.viol('raised', 'tree_to_table(%s, %r, leaf=True) raised %s: %s' % (label, cut, type(e).__name__, e), op='tree_to_table-leaf', exc=type(e).__name__)
             try:
                 tbl = dictable(tree, pattern)
                 out.call()
